@@ -126,6 +126,9 @@ fn extend_subst<L: Language>(pv: &PVar, x: AppliedId, mut st: MultiState, eg: &E
     if let Some(y) = st.subst.get(pv).cloned() {
         unify(&x, &y, st, eg)
     } else {
+        // bind the invocation under the current slot names: a stale name would hide it from later
+        // disequality checks (the slots of one e-node are pairwise different).
+        let x = state_appid_find(x, &st);
         st.subst.insert(pv.clone(), x);
         vec![st]
     }
